@@ -7,6 +7,10 @@ CONSTANTS Addrs <- TrAddrs
  MaxRestart = 1000000
  MaxReads = 1000000
  LeafOnly = TRUE
+ MaxSlots = 1000000
+ CanonSlots = FALSE
+ Kinds <- TrKinds
+ IdentByHash = TRUE
 CONSTRAINT HW
 INVARIANTS TrViewIsNearestWrite TrPersist
 POSTCONDITION Accepted
